@@ -49,6 +49,20 @@ type Contract struct {
 	WF       []string // heap specs for which heap well-formedness axioms are emitted
 	Ghosts   []GhostDef // ghost integer constants (see "ghost" in loadFile)
 	Partial  bool // partial correctness: self-recursion without a measure is reported instead of being an obligation
+	NoPanicAssumed bool // the run-time checks of this function (nil, index, slice, ...) are assumed, not proved (reported)
+	Rebinds  []Rebind // per-callee instantiation of a callee's ghost constant (default: binding by name)
+	IgnoreEnsures []string // spec functions: callee postconditions mentioning one of them are not assumed in this function
+}
+
+// Rebind: "rebind <callee-key-substring> <ghost> = <expr>": at calls of the matching callee the callee's ghost
+// constant is instantiated with <expr>, evaluated in the caller's state at the call (the callee's contract is
+// proved for every value of its ghost, so any instance may be used). loopBound(n) in <expr> is the allocation
+// counter at the entry of the caller's n-th loop.
+type Rebind struct {
+	Callee string
+	Ghost  string
+	Expr   SExpr
+	Text   string
 }
 
 // GhostDef: "ghost B int" declares a ghost integer constant the clauses of the contract may mention. The
@@ -359,6 +373,39 @@ func (cs *ContractSet) loadFile(path string) error {
 				cs.GhostNames = map[string]bool{}
 			}
 			cs.GhostNames[fs[0]] = true
+		case "assume-no-panic":
+			// the function's own run-time checks are assumed to pass: the contract speaks about the executions
+			// that do not panic (frame and postconditions); reported as an assumption
+			if cur == nil {
+				return fmt.Errorf("%s:%d: assume-no-panic outside func", path, r.line)
+			}
+			cur.NoPanicAssumed = true
+		case "ignore-ensures":
+			// ignore-ensures f, g: postconditions of callees that mention the spec function f or g are not assumed
+			// while this function is verified (sound: fewer assumptions); keeps large structural facts
+			// (deepcopy) out of verification conditions that only need the frame
+			if cur == nil {
+				return fmt.Errorf("%s:%d: ignore-ensures outside func", path, r.line)
+			}
+			for _, m := range strings.Split(r.text, ",") {
+				if m = strings.TrimSpace(m); m != "" {
+					cur.IgnoreEnsures = append(cur.IgnoreEnsures, m)
+				}
+			}
+		case "rebind":
+			if cur == nil {
+				return fmt.Errorf("%s:%d: rebind outside func", path, r.line)
+			}
+			i := strings.Index(r.text, "=")
+			fs := strings.Fields(r.text[:max0i(i)])
+			if i < 0 || len(fs) != 2 {
+				return fmt.Errorf("%s:%d: rebind <callee> <ghost> = <expr>", path, r.line)
+			}
+			e, err := ParseSpec(strings.TrimSpace(r.text[i+1:]))
+			if err != nil {
+				return fmt.Errorf("%s:%d: %v", path, r.line, err)
+			}
+			cur.Rebinds = append(cur.Rebinds, Rebind{Callee: fs[0], Ghost: fs[1], Expr: e, Text: r.text})
 		case "partial":
 			if cur == nil {
 				return fmt.Errorf("%s:%d: partial outside func", path, r.line)
@@ -443,4 +490,11 @@ func parsePure(pkg, text string) (*PureFn, error) {
 	}
 	pf.Body = e
 	return pf, nil
+}
+
+func max0i(i int) int {
+	if i < 0 {
+		return 0
+	}
+	return i
 }
